@@ -440,6 +440,31 @@ def reuse_checks(ctx, prev, m, pools, origin):
             ctx.violate('run-raises:%s/reuse' % type(e).__name__, 'a reused runner raised %s: %s' % (type(e).__name__, str(e)[:100]),
                         spec, exc=e)
             return
+        # a script whose embedded path is malformed is refused by every run of the same runner, not only by the first one
+        if pa:
+            for tail in ('/', '[1:', '[1:2:3:4]', '.'):
+                badbody = 'w = ${%s%s}\n' % (pa[0], tail)
+                try:
+                    r_bad = ScriptRunner(badbody, data_values_nest_level=lvl)
+                except Exception:
+                    continue
+                outs = []
+                for attempt in range(3):
+                    try:
+                        v = r_bad.run(prev if attempt != 1 else m)
+                        outs.append('binds ' + repr(v.get('w'))[:60])
+                    except Exception as e:
+                        outs.append('raises ' + type(e).__name__)
+                try:
+                    ScriptRunner(badbody, data_values_nest_level=lvl).run(prev)
+                    fresh_out = 'binds'
+                except Exception as e:
+                    fresh_out = 'raises ' + type(e).__name__
+                ctx.count('malformed_script_reruns')
+                if fresh_out.startswith('raises') and any(o != fresh_out for o in outs):
+                    ctx.violate('runner-reuse/malformed-expression-accepted-on-rerun', 'a runner whose script holds the malformed path %r: runs give %r, a fresh runner %s'
+                                % (pa[0] + tail, outs, fresh_out), dict(spec, script=badbody))
+                    return
         for k, (which, d, snap) in enumerate(kept_runs):
             ctx.count('kept_run_results_reread')
             if view_of(d) != snap or d.get('note_of_the_caller') != which:
